@@ -15,6 +15,45 @@ ASSUMPTIONS = [
 ]
 
 PROPS = {
+    "C05": {
+        "rule": "bound reference-issued tokens (cnf = RSA JWK, sha-256/384/512) presented with harness-crafted KB-JWTs: 28 kinds cycling - valid (policy aud set / unset / aud array), "
+                "signed by another RSA key, other algorithm, typ missing / JWT-like, sd_hash over another string / the JWT only / the presentation without its final '~' / under "
+                "another hash algorithm / missing / non-string, aud unexpected / missing, no key-binding policy, disclosure dropped / added / duplicated / reordered / replaced "
+                "after binding, KB stripped, KB on an unbound token, cnf not RSA / e missing / n not a string / n not base64 / cnf null. KB validity table filled by an "
+                "independent RSA verification; oracle: Verifier::verify accepts iff no defect. non-trivial = defect case; distinct = distinct (kind,input)",
+        "explanation": "",
+        "trusted_base": ["KB-JWT signature validity and policy evaluation inside jwt-rustcrypto enter the model as the o_kb oracle"],
+        "assumptions": [],
+    },
+    "C09": {
+        "rule": "bound tokens (library-issued and reference-issued with sha-256/384/512), random redaction sets, key binding with RS256/384/512 and PS256/384/512, audiences incl. empty "
+                "and non-ASCII, 3 repeated build() calls per holder, verifier policies with matching / no / other audience. oracle per build: header == {alg, typ: kb+jwt}, aud as "
+                "supplied, iat within the call's [t0,t1], nonce 32 alphanumerics and pairwise distinct across the builds, sd_hash == independent sha2 hash (under the token's "
+                "_sd_alg) of the presentation up to and including its last '~', signature verified by an independent RSA check (rsa crate directly), same disclosures every build; "
+                "the verifier accepts iff the policy's algorithm and audience fit. all cases non-trivial; distinct = distinct (kind,input)",
+        "explanation": "",
+        "trusted_base": [],
+        "assumptions": ["freshness/unpredictability of the nonce and the clock are properties of thread_rng and chrono: oracles of the model; the run only checks distinctness and the iat window"],
+    },
+    "C06": {
+        "rule": "as C02, but every marked node carries a unique sentinel (#k<i>#name for members, #v<i># for scalar values); unbound tokens from the library and the reference "
+                "issuer; random redaction sets incl. junk paths. oracle: (a) no sentinel occurs in the base64-decoded header/payload of the issuer JWT, (b) the built presentation "
+                "carries exactly the disclosures of marks that are neither redacted nor below a redacted mark (count and identity), (c) sentinels of withheld marks occur in no "
+                "decoded segment of the presentation. non-trivial = at least one marked path is redacted; distinct = distinct (kind,input)",
+        "explanation": "",
+        "trusted_base": [],
+        "assumptions": ["'no byte' is checked on the base64-decoded JSON text of every segment; that base64/JSON printing adds no other information is the encoding oracle"],
+    },
+    "C02": {
+        "rule": "random claims/markings; tokens issued alternately by the library (HS256, decoys sometimes) and by the reference issuer (sha-256/384/512, decoys, odd formatting, "
+                "shuffled disclosures), every fifth bound to the RSA holder key; redaction sets = random subsets of the marked paths plus (1 in 3) non-disclosable, non-existent, "
+                "slash-less and sibling-prefix strings, in random order; Holder::presentation -> redact* -> key_binding? -> build -> Verifier::verify. model must reproduce the "
+                "presentation string; oracle: presentation carries exactly the disclosures not withheld, verifier claims == original minus withheld (Spec.prune). "
+                "non-trivial = non-empty redaction list; distinct = distinct (kind,input)",
+        "explanation": "",
+        "trusted_base": [],
+        "assumptions": ["KB-JWT signature validity is an oracle of the model, filled by an independent RSA verification in the harness"],
+    },
     "C14": {
         "rule": "random claims objects and markings (possibly empty, possibly only nested / only array elements), decoy maxima in [-3,50] or none, 1-3 encode() calls on one "
                 "Issuer object, expires_in_seconds on a quarter of the valid cases; every second case carries exactly one invalid path (unknown member, index out of range, "
